@@ -492,6 +492,25 @@ func CheckC14(doc O, x *DocIndex, a Answers, extraCase map[string]string) error 
 			}
 		}
 	}
+	// lookups by an id in another letter case: found iff that spelling is itself a (unique) id
+	for id := range idCount {
+		for _, variant := range []string{strings.ToUpper(id), strings.ToLower(id)} {
+			raw, asked := a["OperationForName|"+variant]
+			if !asked || variant == id {
+				continue
+			}
+			var on struct {
+				Found bool `json:"found"`
+			}
+			if err := a.get("OperationForName|"+variant, &on); err != nil {
+				return err
+			}
+			_ = raw
+			if idCount[variant] == 0 && on.Found {
+				return fmt.Errorf("OperationForName(%q) found an operation although no operation has that id (only %q exists)", variant, id)
+			}
+		}
+	}
 	for getter, want := range map[string][]string{
 		"OperationIDs": wantIDs, "OperationMethodPaths": wantMP,
 		"RequiredConsumes": keysOf(reqC), "RequiredProduces": keysOf(reqP), "RequiredSecuritySchemes": keysOf(reqS),
